@@ -4,7 +4,12 @@ package c02
 import (
 	"bytes"
 	"crypto/rand"
+	"crypto/sha256"
 	"fmt"
+	"math/big"
+
+	hpke "github.com/cisco/go-hpke"
+	"github.com/cloudflare/circl/blindsign/blindrsa"
 	"sync"
 	"testing"
 
@@ -23,7 +28,7 @@ import (
 
 func TestMain(m *testing.M) { rt.Main(m) }
 
-const rule = "honest run, then an attacker transformation of the response handed to the client's Finalize: MUST-REJECT classes (single-bit flip, response under another issuer key, response to another outstanding request, type-5 element drop/duplicate/swap with valid framing) must return an error; every other class (truncation, extension, zeros, random, re-framed varint) may only succeed with tokens that verify under the pinned key by independent means and carry the request's nonce/challenge digest/key id; a panic counts as 'no token' (C03 reports it). non-trivial = transformed response differs from the honest one; distinct by (run, response bytes)"
+const rule = "honest run, then an attacker transformation of the response handed to the client's Finalize: MUST-REJECT classes (single-bit flip, response under another issuer key, response to another outstanding request, type-5 element drop/duplicate/swap with valid framing) must return an error; every other class (truncation, extension, zeros, random, re-framed varint) may only succeed with tokens that verify under the pinned key by independent means and carry the request's nonce/challenge digest/key id; a panic is reported (the property demands an error). non-trivial = transformed response differs from the honest one; distinct by (run, response bytes)"
 
 // finalize calls the client under a panic guard and applies the oracle.
 // mustReject: success itself is the violation.
@@ -37,7 +42,8 @@ func finalize(t *rapid.T, s *rt.Sub, sess *gen.Session, resp []byte, class strin
 		s.Nontrivial(sess.RequestBytes, resp)
 	}
 	if o.Panic != nil {
-		s.Class("panicked(reported-by-C03)")
+		// "in every other case it returns an error": a panic is not an error return
+		rt.Fail(t, fmt.Sprintf("C02/%s/%s/panic", gen.TypeName(sess.Type), class), "finalization panicked instead of returning an error (%v) on response %s", o.Panic, rt.Hex(resp))
 		return
 	}
 	if err != nil {
@@ -448,5 +454,103 @@ func TestConcurrentFinalization(t *testing.T) {
 			return
 		}
 		s.Sample(func() any { return map[string]any{"workers": workers, "rounds": rounds, "type": jobs[0][0].sess.Type} })
+	})
+}
+
+// TestCraftedType3Responses: a malicious ISSUER knows the HPKE secret, so it can put anything behind the response's
+// AEAD; byte-level corruption of an honest response never gets that far. The harness plays that issuer: the client's
+// request is created for a name key derived from a seed the harness knows, the harness runs the receiver side of
+// HPKE itself (go-hpke) and seals arbitrary "blind signatures".
+func TestCraftedType3Responses(t *testing.T) {
+	s := rt.S("crafted-type3-responses").SetRule("type-3 request created for a name key whose seed the harness knows; the harness derives the response key like the issuer (HPKE export, HKDF) and seals: the honest blind signature (health: accepted, valid token), a blind signature under another RSA key, by the right key over another message, of length 0/1/255/257/512, all-zero, all-0xff, N-1, random; oracle: finalization errors or returns a token that verifies under the pinned key and is bound to the request. non-trivial = every crafted response; distinct by (request, plaintext)")
+	su, err := hpke.AssembleCipherSuite(hpke.DHKEM_X25519, hpke.KDF_HKDF_SHA256, hpke.AEAD_AESGCM128)
+	if err != nil {
+		t.Fatal(err)
+	}
+	rt.Check(t, 25, 3000, func(t *rapid.T) {
+		defer rt.Entropy(gen.Seed().Draw(t, "entropy"))()
+		seed := gen.Seed().Draw(t, "nameKeySeed")
+		nk, err := type3.CreatePrivateEncapKeyFromSeed(seed)
+		if err != nil {
+			t.Fatalf("harness: %v", err)
+		}
+		skR, _, err := su.KEM.DeriveKeyPair(seed)
+		if err != nil {
+			t.Fatalf("harness: %v", err)
+		}
+		idx := gen.RSAKey().Draw(t, "rsakey")
+		key := gen.RSAPool()[idx]
+		other := gen.RSAPool()[(idx+1)%len(gen.RSAPool())]
+		iss2 := type2.NewBasicPublicIssuer(key) // same SPKI-derived key id as a type-3 issuer over this key
+		keyID := iss2.TokenKeyID()
+		chal, nonce := gen.Challenge().Draw(t, "challenge"), gen.Bytes32().Draw(t, "nonce")
+		st, err := type3.NewRateLimitedClientFromSecret(gen.P384KeyBytes().Draw(t, "secret")).CreateTokenRequest(chal, nonce, gen.P384KeyBytes().Draw(t, "blind"), keyID, &key.PublicKey, "o.example", nk.Public())
+		if err != nil {
+			t.Fatalf("harness: %v", err)
+		}
+		reqBytes := st.Request().Marshal()
+		sess := &gen.Session{Type: 3, Challenge: chal, Nonces: [][]byte{nonce}, KeyID: keyID, RKey: key, RequestBytes: reqBytes}
+		sess.Finalize = func(r []byte) ([]tokens.Token, error) {
+			tk, err := st.FinalizeToken(r)
+			return []tokens.Token{tk}, err
+		}
+		// receiver side of HPKE, as the issuer does it
+		ctLen := int(reqBytes[83])<<8 | int(reqBytes[84])
+		encCT := reqBytes[85 : 85+ctLen]
+		enc, ct := encCT[:32], encCT[32:]
+		ctx, err := hpke.SetupBaseR(su, skR, enc, []byte("TokenRequest"))
+		if err != nil {
+			t.Fatalf("harness: HPKE receiver: %v", err)
+		}
+		nkEnc := nk.Public().Marshal()
+		nkID := sha256.Sum256(nkEnc)
+		aad := append([]byte{nkEnc[0], 0x00, 0x20, 0x00, 0x01, 0x00, 0x01, 0x00, 0x03}, reqBytes[2:51]...)
+		aad = append(aad, nkID[:]...)
+		inner, err := ctx.Open(aad, ct)
+		if err != nil {
+			t.Fatalf("harness: cannot open the client's request like the issuer would: %v", err)
+		}
+		secret := ctx.Export([]byte("TokenResponse"), 16)
+		blindedMsg := inner[1:257]
+		seal := func(plaintext []byte) []byte {
+			rn := rapid.SliceOfN(rapid.Byte(), 16, 16).Draw(t, "responseNonce")
+			prk := su.KDF.Extract(append(append([]byte{}, enc...), rn...), secret)
+			k := su.KDF.Expand(prk, []byte("key"), 16)
+			n := su.KDF.Expand(prk, []byte("nonce"), 12)
+			aead, err := su.AEAD.New(k)
+			if err != nil {
+				t.Fatalf("harness: %v", err)
+			}
+			return append(rn, aead.Seal(nil, n, plaintext, nil)...)
+		}
+		honestSig, err := blindrsa.NewSigner(key).BlindSign(blindedMsg)
+		if err != nil {
+			t.Fatalf("harness: %v", err)
+		}
+		// health: the harness-sealed honest blind signature is accepted and gives a valid token
+		honestResp := seal(honestSig)
+		toks, err := sess.Finalize(append([]byte{}, honestResp...))
+		if err != nil || sess.CheckTokens(toks) != nil {
+			t.Fatalf("harness health: response sealed by the harness with the honest blind signature is not accepted (%v): the harness does not mirror the protocol", err)
+		}
+		s.Class("health:accepted")
+		foreignSig, _ := blindrsa.NewSigner(other).BlindSign(blindedMsg)
+		otherMsg := append([]byte{}, blindedMsg...)
+		otherMsg[255] ^= 1
+		otherMsgSig, _ := blindrsa.NewSigner(key).BlindSign(otherMsg)
+		nMinus1 := new(big.Int).Sub(key.N, big.NewInt(1)).Bytes()
+		plaintexts := map[string][]byte{
+			"foreign-key-signature": foreignSig, "signature-over-other-message": otherMsgSig,
+			"empty": {}, "one-byte": {1}, "len255": honestSig[:255], "len257": append(append([]byte{}, honestSig...), 0), "len512": append(append([]byte{}, honestSig...), honestSig...),
+			"all-zero": make([]byte, 256), "all-ff": bytes.Repeat([]byte{0xff}, 256), "n-minus-1": nMinus1,
+			"random": rapid.SliceOfN(rapid.Byte(), 256, 256).Draw(t, "randomSig"), "leading-zero-prefixed": append([]byte{0}, honestSig[:255]...),
+		}
+		for name, pt := range plaintexts {
+			if pt == nil {
+				continue
+			}
+			finalize(t, s, sess, seal(pt), "crafted:"+name, false, honestResp)
+		}
+		s.Sample(func() any { return map[string]any{"request": rt.Hex(reqBytes), "honest_response": rt.Hex(honestResp)} })
 	})
 }
